@@ -2,7 +2,7 @@
    Statements only.  Arena.v / Stack.v are Exec models tied to memory_arena<> and memory_stack<> by lock-step
    replay of every upstream call; pools and collections are covered by the destruction check of PoolSpec. *)
 From Coq Require Import ZArith List Bool.
-From FM Require Import FixedStack Stack StackProofs Arena ArenaProofs PoolSpec.
+From FM Require Import InvalidRelease SmallList SmallRefine OrderedList OrderedRefine CollExec CollExecProofs CollInst CollSizes CollInstProofs UnorderedList UnorderedRefine PoolSpec PoolSpecProofs SlotProofs ListLib SmallCarve FixedStack Stack StackProofs Arena ArenaProofs.
 Import ListNotations.
 Local Open Scope Z_scope.
 
@@ -56,3 +56,18 @@ Example C05_nonvacuous :
   let '(a1, calls) := ar_run a0 [(ABlock, Some 4096); (ABlock, Some 8192); (ADealloc, None); (ABlock, None); (ABlock, None); (AShrink, None)] in
   length (ar_used a1) = 2%nat /\ length calls = 3%nat /\ apply_calls (ar_order a0) (calls ++ ar_destroy_calls a1) = Some [].
 Proof. vm_compute. repeat split; reflexivity. Qed.
+
+(* the Exec models of memory_pool_collection (CollExec.v): in every state a history can reach, the destructor -- the arena's -- gives
+   back exactly the blocks the Spec holds, newest first, each once, with the address and size they were obtained with *)
+Theorem C05_collection_exec_destruction_returns_every_block : forall s sp, UCPR s sp ->
+  ar_destroy_calls (cc_ar _ s) = map (fun b => UFree (fst b) (snd b)) (a_held sp) /\ destroy_ok sp (a_held sp) = true.
+Proof. exact ucoll_destruction_returns_every_block. Qed.
+Print Assumptions C05_collection_exec_destruction_returns_every_block.
+Theorem C05_ordered_collection_exec_destruction_returns_every_block : forall s sp, OCPR s sp ->
+  ar_destroy_calls (cc_ar _ s) = map (fun b => UFree (fst b) (snd b)) (a_held sp) /\ destroy_ok sp (a_held sp) = true.
+Proof. exact ocoll_destruction_returns_every_block. Qed.
+Print Assumptions C05_ordered_collection_exec_destruction_returns_every_block.
+Theorem C05_small_collection_exec_destruction_returns_every_block : forall s sp, SCPR s sp ->
+  ar_destroy_calls (cc_ar _ s) = map (fun b => UFree (fst b) (snd b)) (a_held sp) /\ destroy_ok sp (a_held sp) = true.
+Proof. exact scoll_destruction_returns_every_block. Qed.
+Print Assumptions C05_small_collection_exec_destruction_returns_every_block.
